@@ -1,7 +1,7 @@
 (* Property C16 -- suffix and base.  Statements only. *)
 From Coq Require Import List NArith Bool Arith.
 Import ListNotations.
-Require Import V.Regex V.Parse V.ParseProofs V.PathSpec V.Splice V.Setters V.SetPath V.Iter V.PathQ V.Push V.PathMut V.Reference V.Cmp V.Rfc V.C16Proofs V.C16Proofs2 V.DirProofs.
+Require Import V.Regex V.Parse V.ParseProofs V.PathSpec V.Splice V.Setters V.SetPath V.Iter V.PathQ V.Push V.PathMut V.Reference V.Cmp V.Rfc V.C16Proofs V.C16Proofs2 V.DirProofs V.C16Proofs3.
 Local Open Scope nat_scope.
 
 (* a suffix is produced only when the prefix's (normalised) segments are a leading part of the value's,
@@ -27,6 +27,56 @@ Theorem C16_suffix_exact : forall ys xs1 rest buf, Forall2 seg_eq xs1 ys -> Fora
   exists r, suffix_loop buf (xs1 ++ rest) ys = Some (Some r) /\ nodot (segs r) = nodot (segs buf ++ rest).
 Proof. exact suffix_exact. Qed.
 Print Assumptions C16_suffix_exact.
+
+(* PATH LEVEL, both directions.  A Some answer means: same absoluteness, the value's normalised segments are X1 ++ rest
+   with X1 segment-wise equal (after percent-decoding) to the prefix's normalised segments, and the returned path has
+   exactly the segments rest (up to "." shields) ... *)
+Theorem C16_suffix_decomposition : forall a p r, none_of [QM; HASH] a -> path_suffix a p = Some (Some r) ->
+  is_abs a = is_abs p /\ exists X1 rest, nsegs a = X1 ++ rest /\ Forall2 seg_eq X1 (nsegs p) /\ nodot (segs r) = nodot rest.
+Proof. exact suffix_decomp. Qed.
+Print Assumptions C16_suffix_decomposition.
+(* ... whenever such a decomposition exists the answer is Some (no panic) ... *)
+Theorem C16_path_suffix_exact : forall a p X1 rest, is_abs a = is_abs p -> nsegs a = X1 ++ rest -> Forall2 seg_eq X1 (nsegs p) -> Forall noslash rest ->
+  exists r, path_suffix a p = Some (Some r) /\ nodot (segs r) = nodot rest.
+Proof. exact path_suffix_exact. Qed.
+Print Assumptions C16_path_suffix_exact.
+(* ... and None is answered only when absoluteness differs or the prefix's segments are not a leading part *)
+Theorem C16_path_suffix_none : forall a p, path_suffix a p = Some None -> is_abs a <> is_abs p \/ ~ is_prefix (nsegs p) (nsegs a).
+Proof. exact path_suffix_none. Qed.
+Print Assumptions C16_path_suffix_none.
+
+(* THE RECONSTRUCTION LAW ("appending them to the prefix path gives a path equal to the original"): the prefix's
+   segments followed by the suffix's segments normalise to a list segment-wise == the value's normalised segments --
+   PROVED when the remaining segments contain no ".." (always so for absolute paths) or the prefix's normalised
+   segments are all literally "..".  Outside: recorded class K_pct_dotdot (a prefix segment that only DECODES to ".."
+   followed by a remaining ".."), witness below. *)
+Theorem C16_reconstruction_partial : forall a p r, none_of [QM; HASH] a -> none_of [QM; HASH] p -> path_suffix a p = Some (Some r) ->
+  Forall (fun x => dec x <> None) (nsegs a) ->
+  plain (skipn (length (nsegs p)) (nsegs a)) \/ all_dotdot (nsegs p) ->
+  Forall2 seg_eq (nsegs a) (norm (is_abs p) (segs p ++ segs r)).
+Proof. exact suffix_reconstruct. Qed.
+Print Assumptions C16_reconstruction_partial.
+Theorem C16_K_pct_dotdot_witness :
+  path_suffix kp_a kp_p = Some (Some [46;46]%N) /\ nsegs kp_a = [DOTDOT; DOTDOT] /\ norm (is_abs kp_p) (segs kp_p ++ segs [46;46]%N) = [].
+Proof. exact K_pct_dotdot_witness. Qed.
+Print Assumptions C16_K_pct_dotdot_witness.
+
+(* REFERENCE LEVEL: for all well-formed value / prefix, suffix() is gated by literal scheme equality and authority ==,
+   then is the path-level suffix, accompanied by the value's own query and fragment *)
+Theorem C16_ref_suffix_spec : forall pa pp, wf_parts pa -> wf_parts pp ->
+  ref_suffix (compose pa) (compose pp) =
+  if eq_oscheme (p_scheme pa) (p_scheme pp) then
+    bind (eq_opt eq_authority (p_authority pa) (p_authority pp)) (fun same =>
+    if same then bind (path_suffix (p_path pa) (p_path pp)) (fun r => Some (option_map (fun s => (s, p_query pa, p_fragment pa)) r))
+    else Some None)
+  else Some None.
+Proof. exact ref_suffix_spec. Qed.
+Print Assumptions C16_ref_suffix_spec.
+Theorem C16_ref_suffix_some : forall pa pp r q f, wf_parts pa -> wf_parts pp -> ref_suffix (compose pa) (compose pp) = Some (Some (r, q, f)) ->
+  eq_oscheme (p_scheme pa) (p_scheme pp) = true /\ eq_opt eq_authority (p_authority pa) (p_authority pp) = Some true /\
+  path_suffix (p_path pa) (p_path pp) = Some (Some r) /\ q = p_query pa /\ f = p_fragment pa.
+Proof. exact ref_suffix_some. Qed.
+Print Assumptions C16_ref_suffix_some.
 
 (* base(): for every well-formed reference, everything before the path followed by the path's text up to and
    including its last '/' (Rfc.dir_of: "" when the path has no '/'); the query and fragment are dropped *)
